@@ -171,3 +171,23 @@ def malformedTexts : List String :=
    "min\n x\nst\n c: x >= \nEnd"]
 
 end LpCpp
+
+namespace LpCpp
+open Lp
+
+/-- what the family theorems state of one model: every printed number is a binary64 value, the writer accepts the model,
+    and the C++ reader model reads `normCqm m` back from the written text -/
+def famOK (m : LCqm) : Bool := numsDouble m && (dumps m).toOption.isSome && roundTripOK m
+
+/-- member `i` of the family, as a list (evaluated one model per module: `DimodProofs/LpFamily<k>.lean`) -/
+def familyOne (i : Nat) : List LCqm := [i].filterMap (family[·]?)
+
+theorem famOK_spec (m : LCqm) (h : famOK m = true) :
+    numsDouble m = true ∧ (dumps m).toOption.isSome = true ∧ roundTripOK m = true := by
+  simp only [famOK, Bool.and_eq_true] at h
+  exact ⟨h.1.1, h.1.2, h.2⟩
+
+/-- the malformed texts in three parts (evaluated in parallel modules) -/
+def malformedPart (k : Nat) : List String := (malformedTexts.drop (9 * k)).take 9
+
+end LpCpp
